@@ -20,6 +20,7 @@ type caseC07 struct {
 	Frame  Hex          `json:"frame"`
 	Steps  []guard.Step `json:"steps"`
 	Reader string       `json:"reader,omitempty"` // concrete reader type wrapped around the schedule
+	Before Hex          `json:"before,omitempty"` // a complete frame that precedes Frame on the same stream and is read first
 }
 
 func contiguous(frame []byte) readResult {
@@ -32,14 +33,34 @@ func contiguous(frame []byte) readResult {
 }
 
 func checkC07(frame []byte, steps []guard.Step, reader string) (sig, msg string) {
+	return checkC07b(caseC07{Frame: frame, Steps: steps, Reader: reader})
+}
+
+func checkC07b(c caseC07) (sig, msg string) {
+	frame, steps, reader := c.Frame, c.Steps, c.Reader
 	base := contiguous(frame)
-	sr := &guard.ScriptReader{Data: frame, Steps: steps}
+	stream := append(append([]byte(nil), c.Before...), frame...)
+	sr := &guard.ScriptReader{Data: stream, Steps: steps}
 	rd, _ := wrappedStream(reader, sr)
-	got := readFrom(rd, len(frame), func() interface{} {
-		return vf.Failure{Property: "C07", Kind: "hang", Case: mustJSON(caseC07{frame, steps, reader}), Signature: "hang"}
-	})
+	render := func() interface{} {
+		return vf.Failure{Property: "C07", Kind: "hang", Case: mustJSON(c), Signature: "hang"}
+	}
+	if len(c.Before) > 0 {
+		// the frame in front is read (and judged by C06); its own result is
+		// compared with the contiguous read as well
+		b0 := contiguous(c.Before)
+		g0 := readFrom(rd, len(c.Before), render)
+		if d := sameResult(b0, g0); d != "" {
+			return "fragmentation", fmt.Sprintf("first of two frames %s|%s delivered (%s reader) as %s: %s", hx(c.Before), hx(frame), reader, renderSteps(steps), d)
+		}
+	}
+	got := readFrom(rd, len(frame), render)
 	if d := sameResult(base, got); d != "" {
-		return "fragmentation", fmt.Sprintf("frame %s delivered (%s reader) as %s: %s\ncontiguous: ok=%v err=%v\nfragmented: ok=%v err=%v", hx(frame), reader, renderSteps(steps), d, base.OK, base.Err, got.OK, got.Err)
+		pre := ""
+		if len(c.Before) > 0 {
+			pre = fmt.Sprintf(" (preceded on the stream by %s)", hx(c.Before))
+		}
+		return "fragmentation", fmt.Sprintf("frame %s%s delivered (%s reader) as %s: %s\ncontiguous: ok=%v err=%v\nfragmented: ok=%v err=%v", hx(frame), pre, reader, renderSteps(steps), d, base.OK, base.Err, got.OK, got.Err)
 	}
 	return "", ""
 }
@@ -111,7 +132,7 @@ func TestC07(t *testing.T) {
 		if err := json.Unmarshal(rf.Case, &c); err != nil {
 			t.Fatalf("replay %s: %v", rf.Source, err)
 		}
-		_, msg := checkC07(c.Frame, c.Steps, c.Reader)
+		_, msg := checkC07b(c)
 		r.Case(vf.FPs("replay", string(c.Frame), fmt.Sprint(c.Steps)), true, "replay", func() interface{} { return c })
 		if msg != "" {
 			r.FailReplay(rf, "%s", msg)
@@ -143,7 +164,7 @@ func TestC07(t *testing.T) {
 					return map[string]interface{}{"frame": hx(f), "reads": renderSteps(steps)}
 				})
 				if msg != "" {
-					r.Fail("fragmentation", caseC07{f, steps, "script"}, sig, "%s", msg)
+					r.Fail("fragmentation", caseC07{Frame: f, Steps: steps, Reader: "script"}, sig, "%s", msg)
 					goto generated
 				}
 			}
@@ -155,7 +176,20 @@ func TestC07(t *testing.T) {
 generated:
 	r.Rapid(t, "schedules", vf.N(12000, 2000000), func(t *rapid.T) {
 		frame, kind := genCompleteFrame(t, rapid.Bool().Draw(t, "small"))
-		ch := drawChunks(t, len(frame))
+		var before []byte
+		if rapid.IntRange(0, 2).Draw(t, "before") == 0 {
+			// another complete frame in front, on the same stream
+			before = rapid.SampledFrom([][]byte{{0xc0, 0}, {0xd0, 0}, {0x40, 2, 0, 1}, {0xe0, 0}, {0x30, 5, 0, 1, 'a', 0, 'b'}}).Draw(t, "beforeframe")
+			kind += "/after-another-frame"
+		}
+		total := len(before) + len(frame)
+		ch := drawChunks(t, total)
+		if len(before) > 0 && rapid.Bool().Draw(t, "cut-in-next-header") && len(frame) > 1 {
+			// the read that brings the tail of the first frame also brings
+			// the first 1..4 bytes of the next one
+			k := rapid.IntRange(1, min(4, len(frame)-1)).Draw(t, "headerbytes")
+			ch = []int{len(before) + k, len(frame) - k}
+		}
 		steps := schedule(ch, false, rapid.Bool().Draw(t, "eof-with-last"))
 		// zero-length reads anywhere
 		if rapid.Bool().Draw(t, "zeros") {
@@ -169,13 +203,17 @@ generated:
 			steps = st
 		}
 		reader := rapid.SampledFrom(wrapKinds).Draw(t, "reader")
-		sig, msg := checkC07(frame, steps, reader)
+		c := caseC07{Frame: frame, Steps: steps, Reader: reader, Before: before}
+		sig, msg := checkC07b(c)
 		nt, class := c07Nontrivial(frame, steps)
-		r.Case(vf.FPs(string(frame), fmt.Sprint(steps), reader), nt, kind+"/"+class+"/"+reader, func() interface{} {
-			return map[string]interface{}{"frame": hx(frame), "reads": renderSteps(steps), "reader": reader}
+		if len(before) > 0 {
+			nt = true
+		}
+		r.Case(vf.FPs(string(before), string(frame), fmt.Sprint(steps), reader), nt, kind+"/"+class+"/"+reader, func() interface{} {
+			return map[string]interface{}{"frame": hx(frame), "before": hx(before), "reads": renderSteps(steps), "reader": reader}
 		})
 		if msg != "" {
-			r.Fail("fragmentation", caseC07{frame, steps, reader}, sig, "%s", msg)
+			r.Fail("fragmentation", c, sig, "%s", msg)
 			t.Fatalf("%s", msg)
 		}
 	})
